@@ -61,6 +61,16 @@ def formula_clause(model, rep, funcs):
            f"spectra shifted: {sp_shift}; frequency grid shifted: {grid_shift}", node=f.node, fn=f, clause="layout", stmt="fsc layout")
     okl = bool(grid_shift or grid_plain) and M.all_of(["$r = np.sqrt(sum($f ** 2 for $f in $freqs))", "$lab = ($r / dfreq).astype($$t)"], bg)[0]
     okshape = "shape" in bg and msrc(M.expr(bg["shape"][1])) in ("img0.shape", "img1.shape")
+    # shells 0 .. nlabels-1 are summed (index = arange(0, nlabels)) and reported at (i + 1/2) * dfreq
+    inner = [x for x in ast.walk(f.node) if isinstance(x, ast.FunctionDef) and x is not f.node]
+    okidx = False
+    if okl and len(inner) == 1:
+        bi = dict(bg)
+        okidx = M.has("$nl = $lab.max()", bi) and isinstance(bi["lab"][1], ast.Name) and isinstance(bi["nl"][1], ast.Name) and \
+            Matcher(inner[0]).has(f"return sum_labels($$a, labels={bi['lab'][1].id}, index=np.arange(0, {bi['nl'][1].id}))") \
+            and M.has("$freq = (np.arange(len($$o)) + 0.5) * dfreq")
+    rep.ob("L", f.anchor, "shell i of the output is the sum over label i (index 0 .. nlabels-1) and is reported at frequency (i + 1/2) * dfreq", okidx, "", node=f.node, fn=f,
+           clause="layout", stmt="fsc shell index")
     okl = okl and okshape
     rep.ob("L", f.anchor, "shell label = floor(|f| / dfreq) with |f| in cycles per pixel", okl,
            "", node=f.node, fn=f, clause="layout", stmt="fsc labels")
